@@ -114,13 +114,26 @@ class Poly:
 class Box:
     """symbol -> (lo, hi)"""
 
-    def __init__(self, d=None):
+    def __init__(self, d=None, decomp=None, nonneg=None):
         self.d = dict(d or {})
+        self.decomp = dict(decomp or {})     # (poly key, k) -> (hi symbol, lo symbol): x = hi * 2^k + lo
+        self.nonneg = list(nonneg or [])     # polynomials known to be >= 0 on this path (branch conditions)
 
     def copy(self):
-        return Box(self.d)
+        return Box(self.d, self.decomp, self.nonneg)
 
     def bounds(self, p):
+        lo, hi = self._bounds(p)
+        for q in self.nonneg:
+            d = p - q
+            if d.is_const():            # p = q + c  with q >= 0
+                lo = max(lo, d.const_value())
+            e = p + q
+            if e.is_const():            # p = c - q  with q >= 0
+                hi = min(hi, e.const_value())
+        return lo, hi
+
+    def _bounds(self, p):
         ss = p.syms()
         for s in ss:
             if s not in self.d:
@@ -176,6 +189,9 @@ class Machine:
         self.ssyms = {}        # S-symbol name -> canonical term poly
         self.returns = []      # (env, box) at return
         self.carried_override = None
+        self.decomp = {}
+        self.or_parts = None
+        self.depth = 0
 
     # ---- helpers
     def fresh(self, base, lo, hi):
@@ -342,6 +358,27 @@ class Machine:
                 r = a[1].scale(1 << b[1].const_value())
                 self.fits(r, a[2], 'shift-keeps-bits', 'Shl@L%d' % line, line)
                 return ('p', r, a[2])
+            if op in ('Shr', 'ShrUnchecked', 'BitAnd'):
+                if not b[1].is_const():
+                    raise Unsupported('%s by non-constant' % op)
+                c = b[1].const_value()
+                if op == 'BitAnd':
+                    k = c.bit_length()
+                    if c != (1 << k) - 1:
+                        raise Unsupported('BitAnd with a mask that is not 2^k-1')
+                else:
+                    k = c
+                lo, hi = self.box.bounds(a[1])
+                self.ob(lo >= 0, 'non-negative', '%s operand@L%d' % (op, line), line, 'range [%d, %d]' % (lo, hi))
+                key = (a[1].key(), k)
+                if key not in self.box.decomp:
+                    # x = h * 2^k + l  with l in [0, 2^k-1], h in [lo>>k, hi>>k]
+                    hs = self.fresh('hi', max(lo, 0) >> k, max(hi, 0) >> k)
+                    ls = self.fresh('lo', 0, min((1 << k) - 1, max(hi, 0)))
+                    self.cong[ls] = a[1] - Poly.sym(hs).scale(1 << k)      # exact identity, used for residues
+                    self.box.decomp[key] = (hs, ls)
+                hs, ls = self.box.decomp[key]
+                return ('p', Poly.sym(ls if op == 'BitAnd' else hs), a[2])
             if op == 'BitOr':
                 # disjoint bit ranges -> addition
                 lo_b, hi_b = self.box.bounds(b[1])
@@ -357,6 +394,7 @@ class Machine:
                         k2 += 1
                     coeffs_ok = all(v % (1 << k2) == 0 for v in b[1].t.values())
                 self.ob(coeffs_ok, 'disjoint-or', 'BitOr@L%d' % line, line, '%s | %s' % (a[1], b[1]))
+                self.or_parts = (a[1], b[1])
                 return ('p', a[1] + b[1], a[2])
             raise Unsupported('op %s' % op)
         if k == 'agg':
@@ -408,6 +446,8 @@ class Machine:
         d = pa - pb
         ss = d.syms()
         b2 = box.copy()
+        one = Poly.const(1)
+        b2.nonneg.append({'Ge': d, 'Gt': d - one, 'Le': pb - pa, 'Lt': pb - pa - one}.get(op, Poly.const(0)))
         if len(ss) == 1 and d.multilinear():
             s = ss[0]
             co = d.t.get(((s, 1),), 0)
@@ -493,6 +533,9 @@ class Machine:
                 elif k == 'drop':
                     bb = t['target']
                 elif k == 'return':
+                    if self.or_parts is not None:
+                        env = dict(env)
+                        env[-1] = ('or', self.or_parts)
                     self.returns.append((env, self.box))
                     return
                 elif k == 'unreachable':
@@ -506,6 +549,25 @@ class Machine:
                         ok = (d is want)
                         self.ob(ok, 'assert', '%s@L%d' % (t['msg'].split(' ')[0].split('(')[0], line), line, 'cannot fail' if ok else 'may fail')
                     bb = t['target']
+                elif k == 'call' and (callee(t) or '') in self.F.bodies and self.F.bodies[callee(t)].file.endswith('checksum.rs'):
+                    if self.depth > 3:
+                        raise Unsupported('call depth')
+                    cb = self.F.bodies[callee(t)]
+                    sub = Machine(self.F, cb, self.M, self.box, self.nmax)
+                    sub.cong, sub.obs, sub.ssyms = self.cong, self.obs, self.ssyms
+                    sub.fresh_n = self.fresh_n + 1000 * (self.depth + 1) + 37 * bb
+                    sub.check = self.check
+                    sub.depth = self.depth + 1
+                    args = [self.operand(env, a, line) for a in t['args']]
+                    sub.run({i + 1: a for i, a in enumerate(args)})
+                    self.fresh_n = max(self.fresh_n, sub.fresh_n)
+                    if t['target'] is None:
+                        return
+                    for renv, rbox in sub.returns:
+                        if 0 not in renv:
+                            continue
+                        self._exec(t['target'], self.write(env, t['dst'], renv[0]), rbox, onpath, depth)
+                    return
                 elif k == 'call':
                     v = self.call(env, t, line)
                     if v[0] == 'panic':
